@@ -177,6 +177,19 @@ theorem step_simple_recv (c : CM) (k : Nat) (h : CMInv c) : CMInv (step c (.recv
       exact ⟨this.1, by show c.rbOff + k ≤ c.rbSize; omega, this.2.2.1, this.2.2.2⟩
   · exact h
 
+theorem step_bodyDrop (c : CM) (k : Nat) (h : CMInv c) : CMInv (step c (.bodyDrop k)).1 := by
+  simp only [step]
+  split
+  · rename_i hc
+    have hs : c.sending = false := by cases hsd : c.sending <;> simp [hsd] at hc ⊢
+    have f := inv_recv h hs
+    apply mk_recv (c := { c with rbOff := c.rbOff - k }) hs f.1 f.2.1 ⟨f.2.2.1, f.2.2.2.1, f.2.2.2.2.1, f.2.2.2.2.2.1⟩
+    · intro hb; simp at hb; rw [hb] at hc; simp at hc
+    · intro r hb
+      have := f.2.2.2.2.2.2.2 r hb
+      exact ⟨this.1, by show c.rbOff - k ≤ c.rbSize; omega, this.2.2.1, this.2.2.2⟩
+  · exact h
+
 theorem step_consume (c : CM) (k : Nat) (h : CMInv c) : CMInv (step c (.consume k)).1 := by
   simp only [step]
   cases hb : c.rb with
@@ -744,6 +757,7 @@ theorem step_inv (c : CM) (o : Op) (h : CMInv c) (ho : o.Valid) : CMInv (step c 
   | recv k => exact step_simple_recv c k h
   | consume k => exact step_consume c k h
   | shiftBack k => exact step_shiftBack c k h
+  | bodyDrop k => exact step_bodyDrop c k h
   | alloc n => exact step_alloc c n h ho
   | shrinkRead => exact step_shrinkRead c h
   | maxWrite => exact step_maxWrite c h
